@@ -307,10 +307,11 @@ impl<B: StarkField> AirContext<B> {
         let trace_length = self.trace_len();
         let transition_divisior_degree = trace_length - self.num_transition_exemptions();
 
-        // we use the identity: ceil(a/b) = (a + b - 1)/b
+        // a polynomial of degree d has d + 1 coefficients and each column holds trace_length of
+        // them, so we need ceil((d + 1) / trace_length) columns; we use the identity
+        // ceil(a/b) = (a + b - 1)/b
         let num_constraint_col =
-            (highest_constraint_degree - transition_divisior_degree + trace_length - 1)
-                / trace_length;
+            (highest_constraint_degree - transition_divisior_degree + trace_length) / trace_length;
 
         cmp::max(num_constraint_col, 1)
     }
